@@ -15,7 +15,7 @@ def main():
     ctx = Ctx("C10", "exploration")
     thorough = ctx.tier == "thorough"
     ctx.rule = ("Query shapes = the conjunctive / else-if fragment conditions of EQLCore.tla (logic family exhaustive to depth 2, "
-                "logic6/access sampled), plus predicate / symbolic-function / condition-free queries, rule trees and match patterns with a variable as keyword value; every "
+                "logic6/access sampled), plus predicate / symbolic-function / condition-free queries, rule trees (also with a refinement that introduces a variable of its own), method-call operands and match patterns with a variable as keyword value; every "
                 "variable ranges over a 7-element logging one-shot generator, attributes are logging properties. For each shape "
                 "and k = 1..3 a fresh query is built (construction must log nothing), k results are pulled, and the pulled "
                 "prefixes are validated by TLC against Laziness.tla: some loop order of a demand-driven nested loop must justify "
@@ -42,6 +42,14 @@ def main():
     # match patterns whose keyword value is itself a variable over a lazily produced domain of groups
     for kind in ("ref", "scalar"):
         cases.append({"cond": ["match", kind], "ks": [1, 2, 3, 4], "family": "match"})
+    # a rule whose refinement condition introduces a variable of its own over a lazily produced domain
+    for c in (["cmp", "ge", ["attr", "x", "b"], ["lit", 0]], ["cmp", "eq", ["attr", "x", "a"], ["lit", 1]]):
+        cases.append({"cond": c, "ks": [1, 2, 5], "form": "rule_newvar", "family": "rule"})
+    # a method call on a not yet bound variable as the operand of a comparison
+    for c in (["cmp", "eq", ["attr", "x", "a"], ["call", "y", "get_b"]],
+              ["and", ["cmp", "ge", ["attr", "x", "b"], ["lit", 0]], ["cmp", "lt", ["attr", "x", "a"], ["call", "y", "get_b"]]],
+              ["cmp", "ne", ["call", "y", "get_b"], ["attr", "x", "b"]]):
+        cases.append({"cond": c, "ks": [1, 2, 3], "family": "call"})
     # universal conditions: for_all(y, c) over a lazily produced y - decided per tried x up to the first counter-example
     fa = lambda c: ["forall", "y", c]
     A = lambda v, f: ["attr", v, f]
@@ -82,7 +90,7 @@ def main():
             problems.append(f"first {o['k']} results {o['first']} are not a prefix of the full sequence {full[:4]}...")
         if verdict != "accepted":
             problems.append(verdict)
-        if c.get("form", "query") != "rule" and o["again"] != full:
+        if not c.get("form", "query").startswith("rule") and o["again"] != full:
             problems.append(f"evaluating the same query again after the abandoned evaluation gave {str(o['again'])[:120]}, expected the full sequence {full[:4]}...")
         if not problems:
             continue
